@@ -58,6 +58,13 @@ class Gen:
         if r.random() < 0.2:
             extra.append(E('mosExternalMetadata', E('mosSchema', text='s'),
                            E('mosPayload', E('studioCommand', E('text', text='a note'), attrs={'type': 'note'}))))
+        if r.random() < 0.15:
+            # vendor payload with look-alikes: a nested <item>, a nested <p>, a nested <story>
+            extra.append(E('mosExternalMetadata', E('mosSchema', text='vendor'),
+                           E('mosPayload', E('item', E('itemSlug', text='nested item')), E('p', text='nested paragraph'),
+                             E('story', E('storyID', text='nested')))))
+        if r.random() < 0.1:
+            extra.append(E('itemChannel', text='A', attrs={'note': 'the "late" edition', 'x': "it's", 'nl': 'a\nb'}))
         return B.item(iid, slug=r.random() < 0.8, extra=extra)
 
     def body(self, n_items=None):
@@ -71,6 +78,8 @@ class Gen:
             out.append(B.p(r.choice(TEXTS)))
         if r.random() < 0.2:
             out.append(E('storyNum', text='4', tail='\n   '))
+        if r.random() < 0.12:
+            out.append(E(r.choice(['em', 'i', 'te', 'temp', 'm', 't', 'ite', 'tem']), text='look-alike tag'))
         return out
 
     def new_story(self, sid=None):
@@ -145,6 +154,8 @@ def vary_envelope(rng, doc):
 
 def random_message(g, state, message_id, cls=None, p=0.8):
     """-> (class name, message tree) built against `state`, inside a varied envelope."""
+    if cls is None and g.rng.random() < 0.04:
+        return 'RunningOrderEnd', vary_envelope(g.rng, B.ro_delete(message_id=str(message_id)))
     cls, doc = _random_message(g, state, message_id, cls, p)
     return cls, vary_envelope(g.rng, doc)
 
